@@ -93,8 +93,11 @@ package fpgo
 //@ func (noneDef).Or
 //@   prop C01
 //@   ensures def: r0 == or
+// None's embedded someDef is what the methods None INHERITS (the conversions that noneDef does not override) read: the
+// declaration of None must establish the well-formedness invariant those methods assume (absent, flags set accordingly)
 //@ func (noneDef).IsNil
 //@   prop C01
+//@   globalinit None: None.someDef.isNil && !None.someDef.isPresent && absent(None.someDef.ref)
 //@   ensures def: r0 == true
 //@ func (noneDef).IsPresent
 //@   prop C01
